@@ -531,6 +531,9 @@ func runC13(r *Run) {
 	order.Done()
 	collect.Done()
 	closeR.Done()
+
+	// "after Close every call returns ErrAgentClosed": it returns, i.e. no path leaves the mutex held
+	r.Borrow("C14", map[string]string{"C14.release": "C13.release"})
 }
 
 // rangeElemSource: v is (a conversion of) a load of &S[i]; returns the IndexAddr.
@@ -579,6 +582,11 @@ func fullRangeLoop(lp *Loop, S ssa.Value, ia *ssa.IndexAddr) bool {
 // checkCollect checks the loop that builds slice S from the table.
 func checkCollect(r *Run, collect *RuleCtx, fn *ssa.Function, m *agentModel, S ssa.Value, loops []*Loop, k *keyer) {
 	p := r.P
+	// the list of IDs to notify is private to this call: events are delivered after the mutex is
+	// released, so a list living in the agent would be rewritten by an overlapping (or re-entrant) call
+	if f, _, ok := rootField(S, 0); ok && f != nil {
+		collect.Violation(fn, fn.Pos(), "collected IDs kept in "+f.Name(), "the slice of timed-out IDs is storage of the agent, read after the mutex is released: a second Collect (from a handler, or concurrently) overwrites it and transactions get two timeout events or none")
+	}
 	// S is a phi over appends in a map range loop
 	var appends []*ssa.Call
 	seen := map[ssa.Value]bool{}
